@@ -38,7 +38,7 @@ type verifCase struct {
 	Items   []verifItem `json:"items"`
 	GPanic  int         `json:"gpanic"` // -1: none
 	RTake   int         `json:"rtake"`  // -1: range over the pipe
-	RAfter  []verifAct  `json:"rafter"` // write | panic | sleep (ms)
+	RAfter  []verifAct  `json:"rafter"` // write | panic | sleep (ms) | waitsent (item)
 	Ctx     string      `json:"ctx"`    // none | pre | live | gate (cancelled by the driver while the generator waits at the gate)
 	Seed    int64       `json:"seed"`
 	NilItem int         `json:"nilitem1"` // 1 + index of the item the generator sends as untyped nil (0: none)
@@ -265,6 +265,14 @@ func verifRun(c verifCase) map[string]any {
 		opts = append(opts, WithContext(ctx))
 	}
 
+	sentCh := map[int]chan struct{}{}
+	for _, a := range c.RAfter {
+		if a.Op == "waitsent" {
+			sentCh[a.K] = make(chan struct{})
+		}
+	}
+	rdDone := make(chan struct{})
+	var rdOnce sync.Once
 	gateReached := make(chan struct{})
 	gateOpen := make(chan struct{})
 	itemIndex := func(item any) int {
@@ -340,6 +348,9 @@ func verifRun(c verifCase) map[string]any {
 				source <- i
 			}
 			lg.add("sent", i)
+			if ch, ok := sentCh[i]; ok {
+				close(ch)
+			}
 		}
 		if c.GPanic >= 0 {
 			lg.add("gp", c.GPanic)
@@ -382,9 +393,17 @@ func verifRun(c verifCase) map[string]any {
 					writer.Write(verifRaw(a.K))
 				}
 				lg.add("rd", a.K)
+				rdOnce.Do(func() { close(rdDone) })
 			case "panic":
 				lg.add("rp", a.K)
 				panic(verifPanic{a.K})
+			case "waitsent": // gate: proceed once the generator's send of item K has completed (bounded)
+				if ch, ok := sentCh[a.K]; ok {
+					select {
+					case <-ch:
+					case <-time.After(2 * time.Second):
+					}
+				}
 			case "sleep": // gate for the known-finding replay: let the caller finish its re-check first
 				time.Sleep(time.Duration(a.K) * time.Millisecond)
 			}
@@ -455,6 +474,12 @@ func verifRun(c verifCase) map[string]any {
 			if c.Ctx == "gate" {
 				lg.add("cx", len(c.Items)) // logged before the cancellation takes effect
 				cancelCtx()
+			}
+			if c.Release == "rd" { // after the reducer's first Write returned (bounded)
+				select {
+				case <-rdDone:
+				case <-time.After(2 * time.Second):
+				}
 			}
 			if c.Release == "re" {
 				select {
